@@ -264,6 +264,23 @@ def m_stateless(c, binp, tier, ops="all", tag=""):
                               expect_cases="noninitial", timeout=7200))
 
 
+def macro_values(c, tier):
+    """values built by the compile-time macros are values 'obtained through the safe API' too: each must be == to (and
+    hash / print like) the value parsed from the same literal (C12; the full macro programs belong to C16)"""
+    import macrogen
+    lits = ["und", "UND", "Und-Latn", "und-US", "und-Latn-US-valencia", "en", "EN_us", "sr-Cyrl-RS", "de-1996-1901", "ca-valencia",
+            "sl-rozaj-biske-1994", "en-valencia-VALENCIA", "zh-Hant-TW", "es-419", "und-419", "abcdefgh", "abcde-Latn"]
+    locs = ["und-u-ca-buddhist", "en-US-u-hc-h12-t-de-h0-hybrid-x-foo", "und-x-a", "en-t-und-Latn", "UND-T-UND-u-attr", "en-u-ca"]
+    subs = [("language", "und"), ("language", "UND"), ("language", "en"), ("script", "latn"), ("region", "us"), ("region", "419"),
+            ("variant", "VALENCIA"), ("variant", "1abc")]
+    ok = macrogen.gen_ok_crate(lits, locs, subs, name="macros_values")
+    c.extra_cov["macro_built_values"] = ok["invocations"]
+    if not ok["built"]:
+        c.dis.append({"props": ["C16"], "what": "well-formed-literals-do-not-compile", "source": "macros_values", "detail": {"log": ok["log"][-3000:]}})
+        return
+    c.add_trace(engine.validate_trace("%s-macro-values" % c.prop, ok["trace"]))
+
+
 # ------------------------------------------------------------------------------------------------
 # trace steps (impl -> spec)
 # ------------------------------------------------------------------------------------------------
@@ -468,6 +485,7 @@ def C12(tier, seed):
     m_matches(c, binp, tier, "cmp")
     m_cmp(c, binp, tier)
     traces(c, binp, "hist", tier, quick_n=3000)
+    macro_values(c, tier)
     return c.finish(rule="the specification's order on language identifiers is PROVED (TLAPS, OrderProofs.tla, all values) to be a strict total order consistent with equality; all pairs over the 108x3 product domain (==, cmp both ways, hash, == &str, field-by-field order incl. transitivity on the spec) and all pairs of operation routes from default() (same logical value along different routes); random pairs from histories",
                     assumptions=ASSUME_COMMON, exhaustive=True)
 
